@@ -1,7 +1,8 @@
 ------------------------------- MODULE DetMon -------------------------------
 (* VERDICT monitor for C17: output bytes are a function of input and options. *)
 (*   Init  sc, build                                                          *)
-(*   Out   variant ("fresh" | "reused" | "fresh-again" | "goroutine"), err,   *)
+(*   Out   variant ("fresh" | "reused" | "poisoned" (recycled pool memory      *)
+(*         overwritten) | "goroutine"), err,                                  *)
 (*         sha (hex digest of the produced file), len                         *)
 (* Within a trace every variant must produce the digest of "fresh"; across    *)
 (* builds (default / purego) the "fresh" digests of a scenario must agree.    *)
